@@ -730,10 +730,10 @@ func TestC38(t *testing.T) {
 		spaces = []space{
 			{name: "geometry-1", schemas: []string{"gpt", "mbr"}, n: 1, kinds: allKinds, sizes: idx(4), mins: idx(3), offs: idx(5), ows: []int{0}, cts: []int{0}},
 			{name: "geometry-2", schemas: []string{"gpt", "mbr"}, n: 2, kinds: allKinds, sizes: idx(4), mins: idx(3), offs: idx(5), ows: []int{0}, cts: []int{0}},
-			{name: "geometry-3", schemas: []string{"gpt"}, n: 3, kinds: allKinds, sizes: idx(4), mins: idx(3), offs: idx(5), ows: []int{0}, cts: []int{0}},
 			{name: "offset-write-3", schemas: []string{"gpt"}, n: 3, kinds: []int{kMBR, kBare}, sizes: idx(2), mins: idx(1), offs: idx(3), ows: idx(len(offsetWrites)), cts: []int{0}},
 			{name: "content-3", schemas: []string{"gpt"}, n: 3, kinds: []int{kMBR, kBare, kBoot}, sizes: idx(2), mins: idx(1), offs: idx(3), ows: []int{0}, cts: idx(len(contents))},
 			{name: "geometry-4", schemas: []string{"gpt"}, n: 4, kinds: []int{kMBR, kBare, kBoot}, sizes: idx(2), mins: idx(2), offs: idx(3), ows: []int{0}, cts: []int{0}},
+			{name: "geometry-3", schemas: []string{"gpt"}, n: 3, kinds: allKinds, sizes: idx(4), mins: idx(3), offs: idx(5), ows: []int{0}, cts: []int{0}},
 		}
 	}
 	bounds := map[string]interface{}{}
